@@ -17,9 +17,13 @@ func TestC18(t *testing.T) {
 			c := &core.Case{Prop: "C18", Kind: "workload"}
 			deep := map[int]bool{}
 			longStr := map[int]bool{}
+			midDeep := map[int]bool{}
 			for i := 0; i < nd; i++ {
 				var b []byte
 				dk := rapid.IntRange(0, 7).Draw(rt, "dockind")
+				if i == 1 && len(deep) == 0 && rapid.IntRange(0, 4).Draw(rt, "middeepround?") == 0 {
+					dk = 8 // one mid-depth input in about one round out of five
+				}
 				if i == 0 && rapid.IntRange(0, 5).Draw(rt, "deepround?") == 0 {
 					dk = 99 // one depth-limit input in about one round out of six
 				}
@@ -37,6 +41,12 @@ func TestC18(t *testing.T) {
 				case 6:
 					b = gen.NestSpec{Depth: rapid.IntRange(2, 40).Draw(rt, "depth"), Pattern: gen.NestPatterns[rapid.IntRange(0, len(gen.NestPatterns)-1).Draw(rt, "pat")],
 						Close: rapid.IntRange(0, 40).Draw(rt, "close"), Bottom: []string{"1", `"x"`, "", "]"}[rapid.IntRange(0, 3).Draw(rt, "bottom")]}.Build()
+				case 8:
+					// thousands of levels, well below the limit: the recursive Buffer-less walk has
+					// that many traversals in progress at once on every goroutine
+					d := []int{1300, 2600, 3400, 6000}[rapid.IntRange(0, 3).Draw(rt, "middepth")]
+					b = gen.NestSpec{Depth: d, Pattern: gen.NestPatterns[rapid.IntRange(0, len(gen.NestPatterns)-1).Draw(rt, "pat")], Close: d, Bottom: "1", Sibling: rapid.Bool().Draw(rt, "sib")}.Build()
+					midDeep[i] = true
 				case 7:
 					// a long string with escapes, different text in every input (scratch space of
 					// one caller showing up in another caller's result is then visible); over
@@ -75,10 +85,11 @@ func TestC18(t *testing.T) {
 			c.Ints = []int64{int64(ng), int64(procs), int64(stride)}
 			skipFamily := []int{0, 1, 2, 8, 9, 30, 31, 32, 33, 34}
 			deepOps := 0
-			if len(deep) > 0 && ng > 8 {
+			if (len(deep) > 0 || len(midDeep) > 0) && ng > 8 {
 				ng = 8
 				c.Ints[0] = 8
 			}
+			midOps := 0
 			for i := 0; i < nops; i++ {
 				fn := rapid.IntRange(0, c18NumOps-1).Draw(rt, "fn")
 				doc := rapid.IntRange(0, nd-1).Draw(rt, "doc")
@@ -89,6 +100,17 @@ func TestC18(t *testing.T) {
 						deepOps++
 						fn = skipFamily[fn%len(skipFamily)]
 						r.Label("op.on-depth-limit-input")
+					}
+				}
+				if midDeep[doc] {
+					if midOps >= 10 && nd > 2 {
+						doc = 2 + (doc+i)%(nd-2)
+					} else {
+						// the walk and the skip family only (the generic decoders would build thousands
+						// of nested containers per operation)
+						midOps++
+						fn = []int{35, 35, 1, 31, 35, 2, 0, 35, 30, 32}[fn%10]
+						r.Label("op.on-mid-depth-input")
 					}
 				}
 				if longStr[doc] && i%3 != 0 {
